@@ -128,7 +128,41 @@ Definition finish (a : st) (str : list Z) (start : nat) : res st :=
        | Some _ => Ok a
        end.
 
-(* for (size_t s = 0U; string[s];) { ... } and the tail; result: final state (s_out = returned pointer) *)
+(* one pass through the body of `for (size_t s = 0U; string[s];) { ... }` (c = string[s] != 0):
+   either the function returns (NULL after a failed append) or the loop goes on with new s, start *)
+Inductive step : Type := Return (a : st) | Continue (s start : nat) (a : st).
+
+Definition scan_body (e : env) (str : list Z) (c : Z) (s start : nat) (a : st) : res step :=
+  is_ref <- (if c =? 36 then (c1 <- rd str (s + 1) ;; Ok (is_var_name_char c1)) else Ok false) ;;
+  if is_ref then
+    (* Hit $ (variable reference like $VAR_NAME) *)
+    t <- name_end (length str + 1) str s 1 ;;
+    let '(ok1, a1) := flush_prefix a str start s in
+    if negb ok1 then Ok (Return a1)                                 (* return NULL *)
+    else
+      r2 <- append_var e a1 t (skipn s str) ;;
+      let '(ok2, a2) := r2 in
+      if negb ok2 then Ok (Return a2)                               (* return NULL *)
+      else Ok (Continue (s + t) (s + t) a2)                         (* start = s = s + t *)
+  else
+    is_home <- (if c =? 126 then
+                  left <- (if (s =? 0)%nat then Ok true             (* !s || is_path_delim(string[s - 1U]) *)
+                           else (p <- rd str (s - 1) ;; Ok (is_path_delim p))) ;;
+                  if left then (c1 <- rd str (s + 1) ;; Ok (is_path_delim c1)) else Ok false
+                else Ok false) ;;
+    if is_home then
+      (* Hit ~ alone between delimiters or string ends (home directory reference) *)
+      home <- find_env e HOME ;;
+      let value := match home with Some h => h | None => [126] end in
+      let '(ok1, a1) := flush_prefix a str start s in
+      if negb ok1 then Ok (Return a1)
+      else
+        let '(ok2, a2) := append_str a1 (length value) value in
+        if negb ok2 then Ok (Return a2)
+        else Ok (Continue (S s) (S s) a2)                           (* start = ++s *)
+    else Ok (Continue (S s) start a).                               (* ++s *)
+
+(* the loop and the tail; result: final state (s_out = returned pointer) *)
 Fixpoint scan (fuel : nat) (e : env) (str : list Z) (s start : nat) (a : st) : res st :=
   match fuel with
   | O => OutOfFuel
@@ -136,32 +170,11 @@ Fixpoint scan (fuel : nat) (e : env) (str : list Z) (s start : nat) (a : st) : r
     c <- rd str s ;;
     if c =? 0 then finish a str start
     else
-      is_ref <- (if c =? 36 then (c1 <- rd str (s + 1) ;; Ok (is_var_name_char c1)) else Ok false) ;;
-      if is_ref then
-        t <- name_end (length str + 1) str s 1 ;;
-        let '(ok1, a1) := flush_prefix a str start s in
-        if negb ok1 then Ok a1                                   (* return NULL *)
-        else
-          r2 <- append_var e a1 t (skipn s str) ;;
-          let '(ok2, a2) := r2 in
-          if negb ok2 then Ok a2                                 (* return NULL *)
-          else scan f e str (s + t) (s + t) a2                   (* start = s = s + t *)
-      else
-        is_home <- (if c =? 126 then
-                      left <- (if (s =? 0)%nat then Ok true
-                               else (p <- rd str (s - 1) ;; Ok (is_path_delim p))) ;;
-                      if left then (c1 <- rd str (s + 1) ;; Ok (is_path_delim c1)) else Ok false
-                    else Ok false) ;;
-        if is_home then
-          home <- find_env e HOME ;;
-          let value := match home with Some h => h | None => [126] end in
-          let '(ok1, a1) := flush_prefix a str start s in
-          if negb ok1 then Ok a1
-          else
-            let '(ok2, a2) := append_str a1 (length value) value in
-            if negb ok2 then Ok a2
-            else scan f e str (S s) (S s) a2                     (* start = ++s *)
-        else scan f e str (S s) start a                          (* ++s *)
+      r <- scan_body e str c s start a ;;
+      match r with
+      | Return a' => Ok a'
+      | Continue s' start' a' => scan f e str s' start' a'
+      end
   end.
 
 Definition init_st (o : list bool) : st := mkst None 0 o [] 0.
